@@ -3,6 +3,7 @@ C08 — dictionaries: what an accepted dictionary guarantees, agreement of the t
 -/
 import ZstdVerif.Model.Dict
 import ZstdVerif.Lemmas.DictRT
+import ZstdVerif.Lemmas.DictTablesRT
 namespace ZstdVerif.Props.C08
 open ZstdVerif ZstdVerif.Dict ZstdVerif.Gen
 
@@ -117,5 +118,46 @@ theorem wrong_dict_refused_full (rep0 : Rep.R) (a : HeaderW.HArgs) (ha : a.wf) (
     (cap : Nat) (o : Frame.Opts) (hml : o.magicless = false) :
     Frame.decompressAll (DictEnc.serializeFrameFrom rep0 a bs x) dict cap o = .error .dictWrong :=
   DictRT.wrong_dict_refused_full rep0 a ha hnd hid hm dict hne bs x cap o hml
+
+/-! ### first blocks that REPEAT the dictionary's entropy tables (Lemmas/DictTablesRT.lean) -/
+
+/-- **loadD_tables_match**: the entropy state the decoder-side loader installs (ZSTD_loadDEntropy: `litEntropy = fseEntropy = 1`) carries
+exactly the tables the compressor starts from after ZSTD_loadCEntropy (`DictEnc.dictStart d`: for a formatted dictionary the three
+sequence tables built from the counts FSE_readNCount returned and the Huffman table of the weights HUF_readStats returned - which are
+PROVED acceptable: Kraft equality, depth ≤ 12 -; nothing for raw content), in the sense of the carrier relations of the block round trip -/
+theorem loadD_tables_match {d : Bytes} {D : Frame.Dict} (h : loadD d = .ok D) :
+    BlockRT.EntMatch (DictEnc.dictStart d).1 D.ent ∧ BlockRT.HufMatch (DictEnc.dictStart d).2 D.ent :=
+  DictTablesRT.loadD_tables_match h
+
+/-- for a formatted dictionary the start state is the dictionary's own tables (`set_repeat` / treeless literals in the first block
+resolve to them) -/
+theorem dictStart_full {d : Bytes} {p : Parsed} (h : classify d = .full p) :
+    DictEnc.dictStart d = (some (DictEnc.dictTables p), some (DictEnc.dictHuf p)) :=
+  DictTablesRT.dictStart_full h
+
+/-- **dict_tables_roundtrip**: `dict_roundtrip` with the dictionary's ENTROPY TABLES on offer.  For every dictionary the decoder-side
+loader accepts, every input and every tiling of it into raw / RLE / compressed blocks that is valid when the block loop starts from the
+dictionary's tables (`DictTablesRT.FrameOKFromT`: matches may reach into the dictionary, first sequences may use its repeat offsets, the
+FIRST block(s) with sequences may say `set_repeat` for LL / OF / ML = the dictionary's tables, the first block(s) with literals may be
+TREELESS = Huffman-coded with the dictionary's table; afterwards tables are repeated from block to block as in `C01.roundtrip_treeless`),
+the frame written by `DictEnc.serializeFrameDictTables` is decoded by ZSTD_decompress_usingDict (`Frame.decompressAll`) with that
+dictionary to exactly the input.  `dict_roundtrip` is the special case of tilings that never look at the starting tables
+(`DictTablesRT.frameOKFromT_of_frameOKFrom`, `DictTablesRT.frame_roundtrip_from_inst`). -/
+theorem dict_tables_roundtrip (d : Bytes) (D : Frame.Dict) (hload : loadD d = .ok D)
+    (a : HeaderW.HArgs) (bs : List BlockEnc.BlockChoice2) (x : ByteArray)
+    (hok : DictTablesRT.FrameOKFromT D.content D.id (DictEnc.dictRep D) (DictEnc.dictStart d).1 (DictEnc.dictStart d).2 a bs x)
+    (cap : Nat) (hcap : x.size ≤ cap) (o : Frame.Opts) (hml : o.magicless = false) (hmb : o.maxBlockSize = 0) :
+    ∃ traces, Frame.decompressAll (DictEnc.serializeFrameDictTables d D a bs x) D cap o = .ok (x, traces) :=
+  DictTablesRT.frame_roundtrip_compressed_dict_tables d D hload a bs x hok cap hcap o hml hmb
+
+/-- the general form: ANY starting state (repeat offsets, previous sequence-table decisions, previous Huffman table) that the encoder
+starts from and the decoder's loaded entropy state carries -/
+theorem roundtrip_from_tables (rep0 : Rep.R) (hpos : BlockRT.RepPos rep0) (pt0 : Option BlockEnc.Tables) (hp0 : Option BlockEnc.HufTab)
+    (a : HeaderW.HArgs) (bs : List BlockEnc.BlockChoice2) (x : ByteArray) (dict : Frame.Dict)
+    (hok : DictTablesRT.FrameOKFromT dict.content dict.id rep0 pt0 hp0 a bs x) (hrep0 : SeqRT.repOf dict.ent.rep = rep0)
+    (hem : BlockRT.EntMatch pt0 dict.ent) (hhm : BlockRT.HufMatch hp0 dict.ent)
+    (cap : Nat) (hcap : x.size ≤ cap) (o : Frame.Opts) (hml : o.magicless = false) (hmb : o.maxBlockSize = 0) :
+    ∃ traces, Frame.decompressAll (DictEnc.serializeFrameFromT rep0 pt0 hp0 a bs x) dict cap o = .ok (x, traces) :=
+  DictTablesRT.frame_roundtrip_fromT rep0 hpos pt0 hp0 a bs x dict hok hrep0 hem hhm cap hcap o hml hmb
 
 end ZstdVerif.Props.C08
